@@ -1,4 +1,4 @@
-import FrappyProofs.Lemmas.Lifecycle
+import FrappyProofs.Lemmas.LifecycleWait
 import FrappyModel.Generated.C15
 /-
 C15 — Lifecycle: initialise, write config, poll, serve; shutdown in reverse order.
@@ -12,7 +12,7 @@ them): `init_order_once_statement`, `attached_ready_statement`, `bad_attachment_
 `attached_ready_fails` proves the recorded finding on the model.
 -/
 namespace Frappy.Proofs.C15
-open Frappy.Lifecycle Frappy.Spec.C15 Frappy.Proofs.Lifecycle
+open Frappy.Lifecycle Frappy.Spec.C15 Frappy.Proofs.Lifecycle Frappy.Proofs.LifecycleInit Frappy.Proofs.LifecycleWait
 
 /-- a finite graph on `mods` is acyclic: it has a topological numbering (with numbers up to the number of modules —
 the length of the longest path) -/
@@ -110,8 +110,34 @@ def init_order_once_statement : Prop :=
     r.st.oof = false → cleanB cfg r.st.ioDict = true →
     r.st.errors = [] ∧ (∀ n ∈ names (allMods cfg r.st.ioDict), n ∈ r.st.modules) ∧ InitOrderOnce r.st.modules r.log
 
-def attached_ready_statement : Prop :=
-  ∀ (cfg : Cfg) (fuel : Nat), AttachedReady (startup cfg fuel).log
+/-- `attached_ready`, full: in every life of the node (every configuration, cyclic or not, failing hooks or not,
+every fuel, schedule and choice function), whenever a module obtains an attached module, that module's `initModule`
+has already been entered — and (invariant `Inv.initOk` behind it) has run to completion without error. -/
+theorem attached_ready (cfg : Cfg) (fuel : Nat) (sched : List Act) (pick : List Name → Nat) :
+    AttachedReady (run cfg fuel sched pick).log := by
+  apply attachedReady_of_ARfrom
+  rw [(run_log cfg fuel sched pick).2]
+  split
+  · exact ARfrom_append _ (fun e he => (later_no_init _ sched pick e he).1) _ _ (startup_ar cfg fuel)
+  · exact startup_ar cfg fuel
+
+/-- "reported as a configuration error instead of a half-started node", full: whenever the error list is not empty,
+no `startModule` is ever called -/
+theorem no_half_start (cfg : Cfg) (fuel : Nat) (sched : List Act) (pick : List Name → Nat) :
+    NoHalfStart ⟨(run cfg fuel sched pick).st.modules, (run cfg fuel sched pick).st.errors,
+      (run cfg fuel sched pick).log, (run cfg fuel sched pick).st.ioDict⟩ := by
+  intro herr e he
+  simp only at herr he
+  rw [(run_log cfg fuel sched pick).1] at herr
+  rw [(run_log cfg fuel sched pick).2] at he
+  have hne : (startup cfg fuel).errors.isEmpty = false := by
+    cases h : (startup cfg fuel).errors with
+    | nil => exact absurd h herr
+    | cons a l => rfl
+  simp only [hne] at he
+  rcases startup_shape cfg fuel e he with h | rfl
+  · cases e <;> simp [isInitEv] at h <;> rfl
+  · rfl
 
 def bad_attachment_reported_statement : Prop :=
   ∀ (cfg : Cfg) (fuel : Nat) (sched : List Act) (pick : List Name → Nat),
